@@ -362,7 +362,7 @@ func Spec() *explore.Spec {
 		Rule: "every (type, id layout, value, protocol, codec-object mode) within the deviation bound; distinct non-trivial = distinct tuples",
 		Assumptions: []string{
 			"required fields are always set in generated values; nil and empty collections are identified; floats compared by bits (no NaN in the domain)",
-			"unsigned Go integer kinds and embedded structs are not generated; unions have a family of their own",
+			"unsigned Go integer kinds are not generated (unsupported types); unions and embedded structs have families of their own",
 			"byte equality between a reused Encoder and Marshal is only demanded for values without multi-entry maps/sets (iteration order)",
 		},
 	}
